@@ -15,6 +15,7 @@ Variable ent_bases : ent -> list name.
 Variable is_empty : bytes -> bool.
 Variable empty_bytes : bytes.
 Hypothesis empty_is_empty : is_empty empty_bytes = true.
+Variable via_get_ent : bool.
 (** the file: no class name occurs twice, every block has data *)
 Variable B : list (block name bytes).
 Hypothesis B_nodup : NoDup (flat_map fst B).
@@ -23,11 +24,11 @@ Hypothesis B_nonempty : Forall (fun b => is_empty (snd b) = false) B.
 Local Notation db := (db name ent bytes).
 Local Notation lookup := (lookup name ent name_eqb).
 Local Notation assoc := (assoc name ent name_eqb).
-Local Notation parse_block := (parse_block name ent bytes name_eqb decode ent_bases is_empty empty_bytes).
+Local Notation parse_block := (parse_block name ent bytes name_eqb decode ent_bases is_empty empty_bytes via_get_ent).
 Local Notation get_ent_with := (get_ent_with name ent bytes name_eqb).
-Local Notation get_ent := (get_ent name ent bytes name_eqb decode ent_bases is_empty empty_bytes).
-Local Notation run_queries := (run_queries name ent bytes name_eqb decode ent_bases is_empty empty_bytes).
-Local Notation parse_all := (parse_all name ent bytes name_eqb decode ent_bases is_empty empty_bytes).
+Local Notation get_ent := (get_ent name ent bytes name_eqb decode ent_bases is_empty empty_bytes via_get_ent).
+Local Notation run_queries := (run_queries name ent bytes name_eqb decode ent_bases is_empty empty_bytes via_get_ent).
+Local Notation parse_all := (parse_all name ent bytes name_eqb decode ent_bases is_empty empty_bytes via_get_ent).
 Local Notation spec := (spec name ent bytes name_eqb decode B).
 Local Notation is_parsed := (is_parsed name ent bytes name_eqb).
 Local Notation Parsed := (Parsed ent).
@@ -140,8 +141,10 @@ Proof.
   - apply spec_none_gen, H.
 Qed.
 
-Lemma Inv_oof d b : Inv d -> Inv (mkdb _ _ _ (emap _ _ _ d) (unparsed _ _ _ d) b).
+Lemma Inv_oof d b r : Inv d -> Inv (mkdb _ _ _ (emap _ _ _ d) (unparsed _ _ _ d) b r).
 Proof. intros [H1 H2 H3]. constructor; cbn [emap unparsed]; assumption. Qed.
+Lemma Inv_add_rec d x : Inv d -> Inv (add_rec _ _ _ d x).
+Proof. apply Inv_oof. Qed.
 
 Lemma set_nth_length {A} i (x : A) l : length (set_nth i x l) = length l.
 Proof. revert i. induction l as [|y r IH]; intros [|i]; cbn [set_nth length]; auto. Qed.
@@ -150,12 +153,29 @@ Proof. revert i. induction l as [|y r IH]; intros [|i] H; cbn [set_nth length nt
 Lemma set_nth_other {A} i j (x : A) l : i <> j -> nth_error (set_nth i x l) j = nth_error l j.
 Proof. revert i j. induction l as [|y r IH]; intros [|i] [|j] H; cbn [set_nth nth_error]; try congruence; auto. Qed.
 
-Lemma get_ent_with_inv pb d c : (forall d i, Inv d -> Inv (pb d i)) -> Inv d -> Inv (snd (get_ent_with pb d c)).
-Proof.
-  intros Hpb Hd. unfold LazyDb.get_ent_with. destruct (lookup c (emap _ _ _ d)) as [[e|i]|]; cbn [snd]; auto.
-Qed.
-Lemma fold_inv (f : db -> name -> db) l : (forall d b, Inv d -> Inv (f d b)) -> forall d, Inv d -> Inv (fold_left f l d).
+Lemma get_ent_with_mono (P : db -> Prop) pb d c : (forall d i, P d -> P (pb d i)) -> P d -> P (snd (get_ent_with pb d c)).
+Proof. intros Hpb Hd. unfold LazyDb.get_ent_with. destruct (lookup c (emap _ _ _ d)) as [[e|i]|]; cbn [snd]; auto. Qed.
+Lemma fold_mono {X} (P : db -> Prop) (f : db -> X -> db) l : (forall d b, P d -> P (f d b)) -> forall d, P d -> P (fold_left f l d).
 Proof. intros Hf. induction l as [|b l IH]; intros d Hd; cbn [fold_left]; auto. Qed.
+Local Notation resolve_list := (resolve_list name ent bytes name_eqb via_get_ent).
+Local Notation resolve_ent := (resolve_ent name ent bytes name_eqb ent_bases via_get_ent).
+Lemma resolve_list_mono (P : db -> Prop) pb : (forall d i, P d -> P (pb d i)) ->
+  forall bs d, P d -> P (snd (resolve_list pb d bs)).
+Proof.
+  intros Hpb. induction bs as [|b bs IH]; intros d Hd; cbn [LazyDb.resolve_list snd]; [exact Hd|].
+  assert (H1 : P (snd (if via_get_ent then get_ent_with pb d b else (peek _ _ _ name_eqb d b, d)))).
+  { destruct via_get_ent; [apply get_ent_with_mono; assumption|exact Hd]. }
+  destruct (if via_get_ent then get_ent_with pb d b else (peek _ _ _ name_eqb d b, d)) as [x d1]. cbn [snd] in H1.
+  specialize (IH d1 H1). destruct (resolve_list pb d1 bs) as [xs d2]. exact IH.
+Qed.
+(** a property kept by decoding blocks and by recording a resolution is kept by one round of the bases loop *)
+Lemma resolve_ent_mono (P : db -> Prop) pb d ce : (forall d i, P d -> P (pb d i)) ->
+  (forall d x, P d -> P (add_rec _ _ _ d x)) -> P d -> P (resolve_ent pb d ce).
+Proof.
+  intros Hpb Hr Hd. unfold LazyDb.resolve_ent. destruct (ent_bases (snd ce)) as [|b bs]; [exact Hd|].
+  pose proof (resolve_list_mono P pb Hpb (b :: bs) d Hd) as H. destruct (resolve_list pb d (b :: bs)) as [rb d'].
+  apply Hr, H.
+Qed.
 
 Lemma parse_block_inv f : forall d i, Inv d -> Inv (parse_block f d i).
 Proof.
@@ -164,7 +184,7 @@ Proof.
     destruct (is_empty data); [exact Hd|apply Inv_oof, Hd].
   - destruct (nth_error (unparsed _ _ _ d) i) as [[cs data]|] eqn:Ei; [|exact Hd].
     destruct (is_empty data) eqn:Ee; [exact Hd|].
-    apply fold_inv; [intros d' b Hd'; apply get_ent_with_inv; [exact IH|exact Hd']|].
+    apply (fold_mono Inv); [intros d' b Hd'; apply resolve_ent_mono; [exact IH|apply Inv_add_rec|exact Hd']|].
     (* the state right after the block's entries have been stored *)
     assert (HB : nth_error B i = Some (cs, data)).
     { destruct (inv_blocks d Hd i) as [H|H]; rewrite Ei in H; [symmetry; exact H|].
@@ -187,18 +207,13 @@ Qed.
 (** * Entries, once decoded, stay decoded; blocks, once emptied, stay empty *)
 Definition marked (d : db) (i : nat) : Prop := nth_error (unparsed _ _ _ d) i = Some ([], empty_bytes).
 
-Lemma get_ent_with_mono (P : db -> Prop) pb d c : (forall d i, P d -> P (pb d i)) -> P d -> P (snd (get_ent_with pb d c)).
-Proof. intros Hpb Hd. unfold LazyDb.get_ent_with. destruct (lookup c (emap _ _ _ d)) as [[e|i]|]; cbn [snd]; auto. Qed.
-Lemma fold_mono (P : db -> Prop) (f : db -> name -> db) l : (forall d b, P d -> P (f d b)) -> forall d, P d -> P (fold_left f l d).
-Proof. intros Hf. induction l as [|b l IH]; intros d Hd; cbn [fold_left]; auto. Qed.
-
 Lemma parse_block_parsed_mono c f : forall d i, is_parsed d c = true -> is_parsed (parse_block f d i) c = true.
 Proof.
   induction f as [|f IH]; intros d i Hd; cbn [LazyDb.parse_block].
   - destruct (nth_error (unparsed _ _ _ d) i) as [[cs data]|]; [|exact Hd]. destruct (is_empty data); exact Hd.
   - destruct (nth_error (unparsed _ _ _ d) i) as [[cs data]|]; [|exact Hd]. destruct (is_empty data); [exact Hd|].
     apply (fold_mono (fun d => is_parsed d c = true)).
-    + intros d' b Hd'. apply (get_ent_with_mono (fun d => is_parsed d c = true)); [exact IH|exact Hd'].
+    + intros d' b Hd'. apply (resolve_ent_mono (fun d => is_parsed d c = true)); [exact IH|intros ? ? H; exact H|exact Hd'].
     + unfold LazyDb.is_parsed in *. cbn [emap]. rewrite lookup_app, lookup_combine_parsed.
       destruct (assoc c (combine cs (decode cs data))); cbn [option_map]; [reflexivity|exact Hd].
 Qed.
@@ -209,7 +224,7 @@ Proof.
   - destruct (nth_error (unparsed _ _ _ d) i) as [[cs data]|]; [|exact Hd]. destruct (is_empty data); exact Hd.
   - destruct (nth_error (unparsed _ _ _ d) i) as [[cs data]|] eqn:Ei; [|exact Hd]. destruct (is_empty data); [exact Hd|].
     apply (fold_mono (fun d => marked d j)).
-    + intros d' b Hd'. apply (get_ent_with_mono (fun d => marked d j)); [exact IH|exact Hd'].
+    + intros d' b Hd'. apply (resolve_ent_mono (fun d => marked d j)); [exact IH|intros ? ? H; exact H|exact Hd'].
     + unfold marked in *. cbn [unparsed]. destruct (Nat.eq_dec i j) as [<-|Hij].
       * apply set_nth_same. apply nth_error_Some. congruence.
       * rewrite set_nth_other by exact Hij. exact Hd.
@@ -224,7 +239,7 @@ Proof.
       pose proof (nth_error_In _ _ H) as Hin. rewrite Forall_forall in B_nonempty.
       specialize (B_nonempty _ Hin). cbn [snd] in B_nonempty. congruence.
     + apply (fold_mono (fun d => marked d i)).
-      * intros d' b Hd'. apply (get_ent_with_mono (fun d => marked d i)); [apply parse_block_marked_mono|exact Hd'].
+      * intros d' b Hd'. apply (resolve_ent_mono (fun d => marked d i)); [apply parse_block_marked_mono|intros ? ? H; exact H|exact Hd'].
       * unfold marked. cbn [unparsed]. apply set_nth_same. apply nth_error_Some. congruence.
   - exfalso. apply nth_error_None in Ei. rewrite (inv_len d Hd) in Ei. lia.
 Qed.
@@ -233,7 +248,7 @@ Qed.
 Theorem get_ent_correct f d c : Inv d ->
   fst (get_ent (S f) d c) = spec c /\ Inv (snd (get_ent (S f) d c)).
 Proof.
-  intros Hd. split; [|apply get_ent_with_inv; [intros; apply parse_block_inv; assumption|exact Hd]].
+  intros Hd. split; [|apply (get_ent_with_mono Inv); [intros; apply parse_block_inv; assumption|exact Hd]].
   unfold LazyDb.get_ent, LazyDb.get_ent_with. pose proof (inv_map d Hd c) as Hc.
   destruct (lookup c (emap _ _ _ d)) as [[e|i]|] eqn:El; cbn [fst]; [symmetry; exact Hc| |symmetry; exact Hc].
   destruct Hc as [cs [data [HB [Hin Hu]]]].
@@ -243,7 +258,7 @@ Proof.
   assert (Hp : is_parsed d' c = true).
   { unfold d'. cbn [LazyDb.parse_block]. rewrite Hu, He.
     apply (fold_mono (fun d => is_parsed d c = true)).
-    - intros d0 b Hd0. apply (get_ent_with_mono (fun d => is_parsed d c = true)); [apply parse_block_parsed_mono|exact Hd0].
+    - intros d0 b Hd0. apply (resolve_ent_mono (fun d => is_parsed d c = true)); [apply parse_block_parsed_mono|intros ? ? H; exact H|exact Hd0].
     - unfold LazyDb.is_parsed. cbn [emap]. rewrite lookup_app, lookup_combine_parsed.
       destruct (assoc_combine_some c cs (decode cs data) Hin (decode_len cs data)) as [e ->]. reflexivity. }
   pose proof (parse_block_inv (S f) d i Hd) as Hd'. fold d' in Hd'. pose proof (inv_map d' Hd' c) as Hc'.
@@ -328,12 +343,11 @@ Proof.
   - destruct (nth_error (unparsed _ _ _ d) i) as [[cs data]|] eqn:Ei; [|split; [lia|exact Ho]].
     destruct (is_empty data) eqn:Ee; [split; [lia|exact Ho]|].
     pose proof (cntl_set_nth _ i (cs, data) Ei Ee) as H.
-    set (d1 := mkdb _ _ _ _ _ _).
+    set (d1 := mkdb _ _ _ _ _ _ _).
     assert (H1 : (cnt d1 + 1 = cnt d)%nat) by exact H.
-    assert (W : within (cnt d1) (fold_left (fun d' b => snd (get_ent_with (parse_block f) d' b))
-                                   (flat_map ent_bases (decode cs data)) d1)).
+    assert (W : within (cnt d1) (fold_left (resolve_ent (parse_block f)) (combine cs (decode cs data)) d1)).
     { apply (fold_mono (within (cnt d1))); [|split; [lia|exact Ho]].
-      intros d' b Hd'. apply (get_ent_with_mono (within (cnt d1))); [|exact Hd'].
+      intros d' b Hd'. apply (resolve_ent_mono (within (cnt d1))); [|intros ? ? H0; exact H0|exact Hd'].
       intros d0 j [Hc0 Ho0]. destruct (IH d0 j) as [Hc1 Ho1]; [split; [lia|exact Ho0]|]. split; [lia|exact Ho1]. }
     destruct W as [Wc Wo]. split; [lia|exact Wo].
 Qed.
@@ -356,6 +370,298 @@ Theorem base_lookups_terminate f qs : (length B <= f)%nat ->
 Proof.
   intros H. apply (run_queries_fuel f qs). split; [|reflexivity].
   unfold LazyDb.cnt. cbn [init unparsed]. etransitivity; [apply filter_len_le|exact H].
+Qed.
+
+
+(** * What the stored base names are replaced by (`ent.bases = [...]` in _parse_block) *)
+Local Notation rassoc := (rassoc name ent name_eqb).
+Local Notation get_full := (get_full name ent bytes name_eqb decode ent_bases is_empty empty_bytes via_get_ent).
+Local Notation run_full := (run_full name ent bytes name_eqb decode ent_bases is_empty empty_bytes via_get_ent).
+Local Notation add_rec := (add_rec name ent bytes).
+
+(** what the file says, including the definitions of the bases *)
+Definition full_spec (c : name) : option (ent * list (option ent)) :=
+  option_map (fun e => (e, map (fun b => spec b) (ent_bases e))) (spec c).
+
+Definition oof_set (d : db) : Prop := oof _ _ _ d = true.
+Lemma parse_block_oof_mono f : forall d i, oof_set d -> oof_set (parse_block f d i).
+Proof.
+  induction f as [|f IH]; intros d i Hd; cbn [LazyDb.parse_block].
+  - destruct (nth_error (unparsed _ _ _ d) i) as [[cs data]|]; [|exact Hd]. destruct (is_empty data); [exact Hd|reflexivity].
+  - destruct (nth_error (unparsed _ _ _ d) i) as [[cs data]|]; [|exact Hd]. destruct (is_empty data); [exact Hd|].
+    apply (fold_mono oof_set); [|exact Hd].
+    intros d' b Hd'. apply (resolve_ent_mono oof_set); [exact IH|intros ? ? H; exact H|exact Hd'].
+Qed.
+Lemma oof_back (d d' : db) : (oof_set d -> oof_set d') -> oof _ _ _ d' = false -> oof _ _ _ d = false.
+Proof. unfold oof_set. intros H H'. destruct (oof _ _ _ d); [rewrite H in H' by reflexivity; discriminate|reflexivity]. Qed.
+
+(** a look-up that did not run out of fuel returns what the file says *)
+Lemma get_ent_with_answer f d b : Inv d ->
+  oof _ _ _ (snd (get_ent_with (parse_block f) d b)) = false -> fst (get_ent_with (parse_block f) d b) = spec b.
+Proof.
+  intros Hd Ho. destruct f as [|f]; [|apply (get_ent_correct f d b Hd)].
+  unfold LazyDb.get_ent_with in *. pose proof (inv_map d Hd b) as Hb.
+  destruct (lookup b (emap _ _ _ d)) as [[e|i]|]; cbn [fst snd] in *; [symmetry; exact Hb| |symmetry; exact Hb].
+  exfalso. destruct Hb as [cs [data [HB [Hin Hu]]]]. cbn [LazyDb.parse_block] in Ho. rewrite Hu in Ho.
+  pose proof (nth_error_In _ _ HB) as HinB. rewrite Forall_forall in B_nonempty. specialize (B_nonempty _ HinB).
+  cbn [snd] in B_nonempty. rewrite B_nonempty in Ho. cbn [oof] in Ho. discriminate.
+Qed.
+
+(** soundness of the records: while the fuel has not run out, every record is what the file says *)
+Definition RSound (d : db) : Prop := oof _ _ _ d = false ->
+  forall c rb, rassoc c (rbases _ _ _ d) = Some rb -> exists e, spec c = Some e /\ rb = map (fun b => spec b) (ent_bases e).
+Definition IR (d : db) : Prop := Inv d /\ RSound d.
+
+Lemma if_via {X} (x y : X) : via_get_ent = true -> (if via_get_ent then x else y) = x.
+Proof. intros H. rewrite H. reflexivity. Qed.
+
+Lemma resolve_list_sound f (Hf : forall d i, IR d -> IR (parse_block f d i)) (Hv : via_get_ent = true) :
+  forall bs d, IR d ->
+  IR (snd (resolve_list (parse_block f) d bs))
+  /\ (oof _ _ _ (snd (resolve_list (parse_block f) d bs)) = false ->
+      fst (resolve_list (parse_block f) d bs) = map (fun b => spec b) bs).
+Proof.
+  induction bs as [|b bs IH]; intros d Hd; cbn [LazyDb.resolve_list fst snd map]; [auto|].
+  rewrite (if_via _ _ Hv).
+  pose proof (get_ent_with_mono IR (parse_block f) d b Hf Hd) as H1.
+  pose proof (get_ent_with_answer f d b (proj1 Hd)) as H2.
+  destruct (get_ent_with (parse_block f) d b) as [x d1]. cbn [fst snd] in H1, H2.
+  destruct (IH d1 H1) as [H3 H4].
+  pose proof (resolve_list_mono oof_set (parse_block f) (parse_block_oof_mono f) bs d1) as Hm.
+  destruct (resolve_list (parse_block f) d1 bs) as [xs d2]. cbn [fst snd] in *.
+  split; [exact H3|]. intros Ho. rewrite H4 by exact Ho. rewrite H2; [reflexivity|]. eapply oof_back; eauto.
+Qed.
+
+Lemma assoc_combine_nodup c e cs : forall es, NoDup cs -> In (c, e) (combine cs es) -> assoc c (combine cs es) = Some e.
+Proof.
+  induction cs as [|k cs IH]; intros [|x es] Hnd Hin; cbn [combine] in *; try destruct Hin.
+  - injection H as -> ->. cbn [LazyDb.assoc]. rewrite eqb_refl. reflexivity.
+  - inversion Hnd as [|? ? Hk Hnd']; subst. cbn [LazyDb.assoc]. rewrite eqb_false; [apply IH; assumption|].
+    intros ->. apply Hk. eapply in_combine_l; eauto.
+Qed.
+Lemma B_block_nodup i cs data : nth_error B i = Some (cs, data) -> NoDup cs.
+Proof.
+  intros H. clear -H B_nodup. revert i H. induction B as [|b bs IH]; intros [|i] H; cbn [nth_error] in H; try discriminate.
+  - injection H as ->. cbn [flat_map fst] in B_nodup. clear IH. induction cs as [|x l IHl]; [constructor|].
+    cbn [app] in B_nodup. inversion B_nodup as [|? ? Hx Hn]; subst. constructor; [|apply IHl; exact Hn].
+    intros Hin. apply Hx, in_or_app. left. exact Hin.
+  - cbn [flat_map] in B_nodup. apply NoDup_app_r in B_nodup. eapply IH; eauto.
+Qed.
+Lemma block_entry_spec i cs data c e : nth_error B i = Some (cs, data) -> In (c, e) (combine cs (decode cs data)) -> spec c = Some e.
+Proof.
+  intros HB Hin. eapply spec_block_gen; [exact B_nodup|exact HB|]. apply assoc_combine_nodup; [eapply B_block_nodup; eauto|exact Hin].
+Qed.
+
+Lemma rassoc_cons c k v l : rassoc c ((k, v) :: l) = if name_eqb k c then Some v else rassoc c l.
+Proof. reflexivity. Qed.
+
+Lemma resolve_ent_sound f (Hf : forall d i, IR d -> IR (parse_block f d i)) (Hv : via_get_ent = true) d c e :
+  spec c = Some e -> IR d -> IR (resolve_ent (parse_block f) d (c, e)).
+Proof.
+  intros Hc Hd. unfold LazyDb.resolve_ent. cbn [fst snd]. destruct (ent_bases e) as [|b bs] eqn:Eb; [exact Hd|].
+  destruct (resolve_list_sound f Hf Hv (b :: bs) d Hd) as [[H1 H2] H3].
+  destruct (resolve_list (parse_block f) d (b :: bs)) as [rb d']. cbn [fst snd] in *.
+  split; [apply Inv_add_rec, H1|]. intros Ho c' rb'. cbn [LazyDb.add_rec rbases oof] in *. rewrite rassoc_cons.
+  destruct (name_eqb c c') eqn:E; [|apply H2, Ho].
+  apply name_eqb_spec in E. subst c'. intros [= <-]. exists e. split; [exact Hc|]. rewrite Eb. apply H3, Ho.
+Qed.
+
+Lemma Inv_store d i cs data : Inv d -> nth_error (unparsed _ _ _ d) i = Some (cs, data) -> is_empty data = false ->
+  nth_error B i = Some (cs, data)
+  /\ Inv (mkdb _ _ _ (combine cs (map Parsed (decode cs data)) ++ emap _ _ _ d)
+               (set_nth i ([], empty_bytes) (unparsed _ _ _ d)) (oof _ _ _ d) (rbases _ _ _ d)).
+Proof.
+  intros Hd Ei Ee.
+  assert (HB : nth_error B i = Some (cs, data)).
+  { destruct (inv_blocks d Hd i) as [H|H]; rewrite Ei in H; [symmetry; exact H|]. injection H as -> ->. congruence. }
+  split; [exact HB|].
+  assert (Hi : (i < length (unparsed _ _ _ d))%nat) by (apply nth_error_Some; congruence).
+  constructor; cbn [emap unparsed].
+  + rewrite set_nth_length. apply (inv_len d Hd).
+  + intros j. destruct (Nat.eq_dec i j) as [<-|Hij]; [right; apply set_nth_same, Hi|].
+    rewrite set_nth_other by exact Hij. apply (inv_blocks d Hd).
+  + intros c. rewrite lookup_app, lookup_combine_parsed.
+    destruct (assoc c (combine cs (decode cs data))) as [e|] eqn:Ea; cbn [option_map].
+    * eapply spec_block_gen; eauto.
+    * pose proof (inv_map d Hd c) as Hc. destruct (lookup c (emap _ _ _ d)) as [[e|j]|]; [exact Hc| |exact Hc].
+      destruct Hc as [cs' [data' [Hj [Hin Hu]]]]. exists cs', data'. repeat split; [exact Hj|exact Hin|].
+      destruct (Nat.eq_dec i j) as [<-|Hij]; [|rewrite set_nth_other by exact Hij; exact Hu].
+      exfalso. rewrite HB in Hj. injection Hj as <- <-.
+      destruct (assoc_combine_some c cs (decode cs data) Hin (decode_len cs data)) as [e He]. congruence.
+Qed.
+
+Lemma fold_resolve_sound f (Hf : forall d i, IR d -> IR (parse_block f d i)) (Hv : via_get_ent = true) l :
+  (forall c e, In (c, e) l -> spec c = Some e) -> forall d, IR d -> IR (fold_left (resolve_ent (parse_block f)) l d).
+Proof.
+  induction l as [|[c e] l IH]; intros Hl d Hd; cbn [fold_left]; [exact Hd|].
+  apply IH; [intros; apply Hl; right; assumption|]. apply resolve_ent_sound; auto. apply Hl. left. reflexivity.
+Qed.
+
+Lemma parse_block_sound (Hv : via_get_ent = true) f : forall d i, IR d -> IR (parse_block f d i).
+Proof.
+  induction f as [|f IH]; intros d i Hd; cbn [LazyDb.parse_block].
+  - destruct (nth_error (unparsed _ _ _ d) i) as [[cs data]|]; [|exact Hd].
+    destruct (is_empty data); [exact Hd|]. split; [apply Inv_oof, Hd|]. intros Ho. discriminate.
+  - destruct (nth_error (unparsed _ _ _ d) i) as [[cs data]|] eqn:Ei; [|exact Hd].
+    destruct (is_empty data) eqn:Ee; [exact Hd|].
+    destruct (Inv_store d i cs data (proj1 Hd) Ei Ee) as [HB Hd1].
+    apply (fold_resolve_sound f IH Hv).
+    + intros c e Hin. eapply block_entry_spec; eauto.
+    + split; [exact Hd1|]. exact (proj2 Hd).
+Qed.
+
+(** completeness of the records: every decoded definition with stored bases that is not in a block whose
+    bases loop is still running ([pend]) has a record *)
+Definition has_rec (d : db) (c : name) : Prop := rassoc c (rbases _ _ _ d) <> None.
+Definition Complete (pend : name -> bool) (d : db) : Prop :=
+  forall c e, pend c = false -> lookup c (emap _ _ _ d) = Some (Parsed e) -> ent_bases e <> [] -> has_rec d c.
+
+Lemma has_rec_add d x c : has_rec d c -> has_rec (add_rec d x) c.
+Proof.
+  unfold has_rec. destruct x as [k v]. cbn [LazyDb.add_rec rbases]. rewrite rassoc_cons. destruct (name_eqb k c); [discriminate|auto].
+Qed.
+Lemma parse_block_rec_mono c f : forall d i, has_rec d c -> has_rec (parse_block f d i) c.
+Proof.
+  induction f as [|f IH]; intros d i Hd; cbn [LazyDb.parse_block].
+  - destruct (nth_error (unparsed _ _ _ d) i) as [[cs data]|]; [|exact Hd]. destruct (is_empty data); exact Hd.
+  - destruct (nth_error (unparsed _ _ _ d) i) as [[cs data]|]; [|exact Hd]. destruct (is_empty data); [exact Hd|].
+    apply (fold_mono (fun d => has_rec d c)); [|exact Hd].
+    intros d' b Hd'. apply (resolve_ent_mono (fun d => has_rec d c)); [exact IH|intros; apply has_rec_add; assumption|exact Hd'].
+Qed.
+
+Definition IC (pend : name -> bool) (d : db) : Prop := Inv d /\ Complete pend d.
+Lemma Complete_add pend d x : Complete pend d -> Complete pend (add_rec d x).
+Proof. intros H c e Hp Hl Hb. apply has_rec_add. exact (H c e Hp Hl Hb). Qed.
+
+Lemma resolve_ent_records f c e d : ent_bases e <> [] -> has_rec (resolve_ent (parse_block f) d (c, e)) c.
+Proof.
+  intros Hb. unfold LazyDb.resolve_ent. cbn [fst snd]. destruct (ent_bases e) as [|b bs]; [congruence|].
+  destruct (resolve_list (parse_block f) d (b :: bs)) as [rb d']. unfold has_rec. cbn [LazyDb.add_rec rbases].
+  rewrite rassoc_cons, eqb_refl. discriminate.
+Qed.
+Lemma fold_resolve_records f l : forall d c e, In (c, e) l -> ent_bases e <> [] ->
+  has_rec (fold_left (resolve_ent (parse_block f)) l d) c.
+Proof.
+  induction l as [|[k x] l IH]; intros d c e Hin Hb; cbn [fold_left]; [destruct Hin|].
+  destruct Hin as [[= -> ->]|Hin]; [|eapply IH; eauto].
+  apply (fold_mono (fun d => has_rec d c)); [|apply resolve_ent_records, Hb].
+  intros d' b Hd'. apply (resolve_ent_mono (fun d => has_rec d c)); [apply parse_block_rec_mono|intros; apply has_rec_add; assumption|exact Hd'].
+Qed.
+
+Lemma parse_block_complete f : forall pend d i, IC pend d -> IC pend (parse_block f d i).
+Proof.
+  induction f as [|f IH]; intros pend d i Hd; cbn [LazyDb.parse_block].
+  - destruct (nth_error (unparsed _ _ _ d) i) as [[cs data]|]; [|exact Hd].
+    destruct (is_empty data); [exact Hd|]. split; [apply Inv_oof, Hd|exact (proj2 Hd)].
+  - destruct (nth_error (unparsed _ _ _ d) i) as [[cs data]|] eqn:Ei; [|exact Hd].
+    destruct (is_empty data) eqn:Ee; [exact Hd|].
+    destruct (Inv_store d i cs data (proj1 Hd) Ei Ee) as [HB Hd1].
+    set (d1 := mkdb _ _ _ _ _ _ _) in *.
+    set (pend' := fun c => pend c || existsb (fun k => name_eqb k c) cs).
+    assert (H1 : IC pend' d1).
+    { split; [exact Hd1|]. intros c e Hp Hl Hb. unfold pend' in Hp. apply orb_false_elim in Hp. destruct Hp as [Hp Hn].
+      unfold d1 in Hl. cbn [emap] in Hl. rewrite lookup_app, lookup_combine_parsed in Hl.
+      destruct (assoc c (combine cs (decode cs data))) as [e0|] eqn:Ea; cbn [option_map] in Hl.
+      - exfalso. apply assoc_combine_In in Ea. apply existsb_name in Ea. congruence.
+      - exact (proj2 Hd c e Hp Hl Hb). }
+    assert (H2 : IC pend' (fold_left (resolve_ent (parse_block f)) (combine cs (decode cs data)) d1)).
+    { apply (fold_mono (IC pend')); [|exact H1]. intros d' b Hd'.
+      apply (resolve_ent_mono (IC pend')); [apply IH| |exact Hd'].
+      intros d0 x [Ha Hb]. split; [apply Inv_add_rec, Ha|apply Complete_add, Hb]. }
+    split; [exact (proj1 H2)|]. intros c e Hp Hl Hb.
+    destruct (existsb (fun k => name_eqb k c) cs) eqn:Ex.
+    + apply existsb_name in Ex.
+      destruct (assoc_combine_some c cs (decode cs data) Ex (decode_len cs data)) as [e0 He0].
+      assert (Hs : spec c = Some e0) by (eapply spec_block_gen; eauto).
+      pose proof (inv_map _ (proj1 H2) c) as Hm. rewrite Hl in Hm. rewrite Hs in Hm. injection Hm as <-.
+      eapply fold_resolve_records; [|exact Hb].
+      clear -He0 name_eqb_spec. revert He0. generalize (decode cs data) as es. induction cs as [|k cs IHc]; intros [|x es] H; cbn [combine LazyDb.assoc] in *; try discriminate.
+      destruct (name_eqb k c) eqn:E; [apply name_eqb_spec in E; injection H as ->; subst; left; reflexivity|right; apply IHc, H].
+    + apply (proj2 H2 c e); [unfold pend'; rewrite Hp, Ex; reflexivity|exact Hl|exact Hb].
+Qed.
+
+(** * Top level: the answers including the bases *)
+Record Top (f : nat) (d : db) : Prop := {
+  top_inv : Inv d; top_sound : RSound d; top_complete : Complete (fun _ => false) d; top_fuel : within f d }.
+
+Lemma Top_init f : (length B <= f)%nat -> Top f (init name ent bytes B).
+Proof.
+  intros H. constructor; [apply Inv_init| | |].
+  - intros _ c rb. cbn [init rbases LazyDb.rassoc]. discriminate.
+  - intros c e _ Hl. exfalso. pose proof (init_map_spec c B 0) as Hs. cbn [init emap] in Hl. rewrite Hl in Hs. exact Hs.
+  - split; [|reflexivity]. unfold LazyDb.cnt. cbn [init unparsed]. etransitivity; [apply filter_len_le|exact H].
+Qed.
+
+Lemma parse_block_top (Hv : via_get_ent = true) f d i : Top f d -> Top f (parse_block f d i).
+Proof.
+  intros [H1 H2 H3 H4]. constructor.
+  - apply parse_block_inv, H1.
+  - apply (parse_block_sound Hv f d i (conj H1 H2)).
+  - apply (parse_block_complete f _ d i (conj H1 H3)).
+  - destruct (parse_block_fuel f d i H4) as [Ha Hb]. destruct H4 as [Hc _]. split; [lia|exact Hb].
+Qed.
+
+Theorem get_full_correct (Hv : via_get_ent = true) f d c : Top f d ->
+  fst (get_full f d c) = full_spec c /\ Top f (snd (get_full f d c)).
+Proof.
+  intros Hd. unfold LazyDb.get_full.
+  assert (Ht : Top f (snd (get_ent f d c))).
+  { unfold LazyDb.get_ent. apply (get_ent_with_mono (Top f)); [intros; apply parse_block_top; assumption|exact Hd]. }
+  pose proof (get_ent_with_answer f d c (top_inv _ _ Hd)) as Ha. fold (get_ent f d c) in Ha.
+  assert (Hl : forall e, fst (get_ent f d c) = Some e -> lookup c (emap _ _ _ (snd (get_ent f d c))) = Some (Parsed e)).
+  { intros e. unfold LazyDb.get_ent, LazyDb.get_ent_with. destruct (lookup c (emap _ _ _ d)) as [[e0|i]|] eqn:El; cbn [fst snd]; try discriminate.
+    - intros [= ->]. exact El.
+    - destruct (lookup c (emap _ _ _ (parse_block f d i))) as [[e1|j]|]; try discriminate. intros [= ->]. reflexivity. }
+  destruct (get_ent f d c) as [x d'] eqn:E. cbn [fst snd] in *. split; [|exact Ht].
+  destruct Ht as [T1 T2 T3 [_ T4]]. rewrite Ha by exact T4. unfold full_spec.
+  destruct (spec c) as [e|] eqn:Es; cbn [option_map]; [|reflexivity].
+  specialize (Hl e (eq_trans (Ha T4) eq_refl)). unfold LazyDb.rb_of.
+  destruct (rassoc c (rbases _ _ _ d')) as [rb|] eqn:Er.
+  - destruct (T2 T4 c rb Er) as [e' [He' ->]]. congruence.
+  - destruct (ent_bases e) as [|b bs] eqn:Eb; [reflexivity|]. exfalso.
+    apply (T3 c e eq_refl Hl); [rewrite Eb; discriminate|exact Er].
+Qed.
+
+Theorem run_full_correct (Hv : via_get_ent = true) f qs : forall d, Top f d ->
+  fst (run_full f d qs) = map full_spec qs /\ Top f (snd (run_full f d qs)).
+Proof.
+  induction qs as [|c qs IH]; intros d Hd; cbn [LazyDb.run_full map]; [auto|].
+  destruct (get_full_correct Hv f d c Hd) as [Hv1 Hi]. destruct (get_full f d c) as [x d'] eqn:E. cbn [fst snd] in *.
+  destruct (IH d' Hi) as [Hv' Hi']. destruct (run_full f d' qs) as [xs d'']. cbn [fst snd] in *.
+  subst. auto.
+Qed.
+
+Lemma parse_all_top (Hv : via_get_ent = true) f d : Top f d -> Top f (parse_all f d).
+Proof.
+  unfold LazyDb.parse_all. generalize (seq 0 (length (unparsed _ _ _ d))) as l. intros l. revert d.
+  induction l as [|i l IH]; intros d Hd; cbn [fold_left]; [exact Hd|]. apply IH, parse_block_top; assumption.
+Qed.
+
+(** the definition of a class, with its bases, in the completely loaded database *)
+Definition eager_full (f : nat) (c : name) : option (ent * list (option ent)) :=
+  fst (get_full f (parse_all f (init name ent bytes B)) c).
+
+Theorem eager_full_correct (Hv : via_get_ent = true) f c : (length B <= f)%nat -> eager_full f c = full_spec c.
+Proof. intros H. unfold eager_full. apply (get_full_correct Hv). apply parse_all_top; [exact Hv|]. apply Top_init, H. Qed.
+
+(** One at a time in any order = the whole database, including what every stored base name was replaced by:
+    every base is the definition object of that class (alias chains across blocks included). *)
+Theorem lazy_full_equals_eager (Hv : via_get_ent = true) f g qs : (length B <= f)%nat -> (length B <= g)%nat ->
+  fst (run_full f (init name ent bytes B) qs) = map (eager_full g) qs.
+Proof.
+  intros Hf Hg. destruct (run_full_correct Hv f qs _ (Top_init f Hf)) as [-> _]. apply map_ext. intros c. symmetry.
+  apply eager_full_correct; assumption.
+Qed.
+
+(** if every stored base name is a class of the file, no base of any answer is left as a name *)
+Theorem lazy_bases_all_resolved (Hv : via_get_ent = true) f qs : (length B <= f)%nat ->
+  (forall c e b, spec c = Some e -> In b (ent_bases e) -> spec b <> None) ->
+  Forall (fun a => match a with Some (e, rb) => length rb = length (ent_bases e) /\ Forall (fun x => x <> None) rb | None => True end)
+         (fst (run_full f (init name ent bytes B) qs)).
+Proof.
+  intros Hf Hk. destruct (run_full_correct Hv f qs _ (Top_init f Hf)) as [-> _]. apply Forall_forall. intros a Ha.
+  apply in_map_iff in Ha. destruct Ha as [c [<- _]]. unfold full_spec. destruct (spec c) as [e|] eqn:Es; cbn [option_map]; [|exact I].
+  split; [apply map_length|]. apply Forall_forall. intros x Hx. apply in_map_iff in Hx. destruct Hx as [b [<- Hb]]. eapply Hk; eauto.
 Qed.
 
 End Proofs.
